@@ -112,6 +112,12 @@ int do_op (string line) {
   case "rmcall": remove_call_out (hs[a]); break;
   case "sent": obs[b]->doact (a, v[c], v[d]); break;
   case "rmsent": obs[b]->rmact (a); break;
+  case "newmstr": v[a] = w[2]; break;            // a run-time built (malloc) string
+  case "sappend": v[a] += b; break;              // string += number: EXTEND_SVALUE_STRING
+  case "sjoin": v[a] += v[b]; break;             // string += string: SVALUE_STRING_JOIN
+  case "sadd": v[a] = v[b] + c; break;           // string + number on a pushed copy
+  case "schar": v[a][b] = w[3][0]; break;        // unlink_string_svalue + byte store
+  case "srange": v[a][b..c] = w[4]; break;       // unlink_string_svalue + copy_lvalue_range
   case "inp": obs[a]->doinput (v[b], v[c]); break;
   case "err": boom (v[a], v[b], 3); break;
   case "efun":
